@@ -143,6 +143,76 @@ impl PagedReader {
         Ok(self.offset)
     }
 
+    fn read(&mut self, buf: &mut [u8]) -> (r: Result<usize, IoError>)
+        requires old(self).wf(),
+        ensures final(self).wf(), final(self).reader.data@ == old(self).reader.data@,
+            final(self).page_size == old(self).page_size, final(self).pages == old(self).pages,
+            final(buf)@.len() == old(buf)@.len(),
+            match r {
+                Ok(n) => ({
+                    let pay = old(self).page_size - 4;
+                    let page = old(self).offset as int / pay;
+                    if page >= old(self).pages { n == 0 && final(self).offset == old(self).offset && final(buf)@ == old(buf)@ }
+                    else {
+                        &&& n == (if old(buf)@.len() <= pay - old(self).offset as int % pay { old(buf)@.len() as int } else { pay - old(self).offset as int % pay })
+                        &&& final(self).offset == old(self).offset + n
+                        &&& sealedn(pagen(old(self).reader.data@, old(self).page_size as int, page), old(self).page_size as int)
+                        &&& forall|i: int| 0 <= i < n ==> final(buf)@[i] == old(self).lbyte(old(self).offset + i)
+                        &&& forall|i: int| n <= i < old(buf)@.len() ==> final(buf)@[i] == old(buf)@[i]
+                    }
+                }),
+                Err(_) => final(self).offset == old(self).offset,
+            }
+    {
+        let page = self.offset / (self.page_size - CHECKSUM_SIZE);
+        if page >= self.pages {
+            return Ok(0);
+        }
+        if self.page_num != Some(page) {
+            self.read_page(page)?;
+        }
+        let page_offset = self.offset % (self.page_size - CHECKSUM_SIZE);
+        let page_readable = self.page_size - CHECKSUM_SIZE - page_offset;
+        let read_size = usize::min(buf.len(), page_readable as usize);
+        proof {
+            let pay = (self.page_size - 4) as int;
+            let o = self.offset as int;
+            vstd::arithmetic::div_mod::lemma_fundamental_div_mod(o, pay);
+            vstd::arithmetic::div_mod::lemma_mod_bound(o, pay);
+            assert(pay * (o / pay) == (o / pay) * pay) by (nonlinear_arith);
+            assert((page + 1) * pay <= self.pages * pay) by (nonlinear_arith) requires page + 1 <= self.pages, pay > 0;
+            assert(page * self.page_size + self.page_size <= self.pages * self.page_size) by (nonlinear_arith)
+                requires page + 1 <= self.pages, self.page_size >= 0;
+            assert(self.page_size as int * (page as int) == page * self.page_size) by (nonlinear_arith);
+            assert(page as int == o / pay);
+            assert(page_offset as int == o % pay);
+            assert((page + 1) * pay == page * pay + pay) by (nonlinear_arith);
+            assert(pay * (o / pay) == page * pay) by (nonlinear_arith) requires page as int == o / pay;
+            assert(read_size <= pay - o % pay);
+            assert(o + read_size <= (page + 1) * pay);
+            assert(self.pages * pay == self.log_file_size);
+        }
+        let ghost pb = self.page_buffer@;
+        buf[..read_size].copy_from_slice(
+            &self.page_buffer[page_offset as usize..page_offset as usize + read_size],
+        );
+        self.offset += read_size as u64;
+        proof {
+            let ps = self.page_size as int;
+            let pay = ps - 4;
+            let o = old(self).offset as int;
+            assert(pb == pagen(self.reader.data@, ps, page as int));
+            assert forall|i: int| 0 <= i < read_size implies buf@[i] == old(self).lbyte(o + i) by {
+                vstd::arithmetic::div_mod::lemma_fundamental_div_mod(o + i, pay);
+                vstd::arithmetic::div_mod::lemma_fundamental_div_mod_converse(o + i, pay, page as int, o % pay + i);
+                assert(buf@[i] == pb[page_offset as int + i]);
+                assert(pb[page_offset as int + i] == self.reader.data@[ps * (page as int) + page_offset as int + i]);
+                assert(ps * (page as int) == (page as int) * ps) by (nonlinear_arith);
+            }
+        }
+        Ok(read_size)
+    }
+
     fn read_page(&mut self, page: u64) -> (r: Result<(), IoError>)
         requires old(self).wf(),
         ensures final(self).wf(), final(self).offset == old(self).offset, final(self).reader.data@ == old(self).reader.data@,
